@@ -103,7 +103,7 @@ def target(run, h, pts, batch, rng, M, M2, ready, tok, st):
     if not a["ok"]:
         return
     c = ch["c"]
-    run.check_corr("corr.C02.prover_and_verifier_hash_the_same_transcript", a["chal"]["chunks"] == ch["chunks"] and ch["digest_ok"], case)
+    run.check_corr("corr.C02.prover_and_verifier_hash_the_same_transcript", "".join(a["chal"]["chunks"]) == "".join(ch["chunks"]) and ch["digest_ok"], case)
     run.check_monitor("revealed_nonce_is_old_state_nonce", nonce == st["nonce"], case)
     d = recover_pay(M, pts, served, started, pp, tok, c)
     if not run.check_corr("corr.C02.randomness_is_fresh_draws", d is not None and pay_draws_fresh(d, served), dict(case, served_n=len(served))):
@@ -124,7 +124,7 @@ def target(run, h, pts, batch, rng, M, M2, ready, tok, st):
     honest = build_pay(M, tok, old, new, newc, old[2], (digits(started["new"]["cb"]),) * 2, (digits(started["new"]["mb"]),) * 2, d, c)
 
     def cmp_tr(r, case=case, chunks=a["chal"]["chunks"]):
-        run.check_corr("corr.C02.pay_transcript", concretize_atoms(pts, r) == chunks, dict(case, n_chunks=len(chunks)))
+        run.check_corr("corr.C02.pay_transcript", "".join(concretize_atoms(pts, r)) == "".join(chunks), dict(case, n_chunks=len(chunks)))
     batch.add("r_pay_transcript pk0 rp0 %s %s %s" % (zlit(nonce), coq_pproof(honest), zlist(list(sha3(ctx)))), cmp_tr)
 
     def cmp_ver(r, case=case):
